@@ -503,6 +503,41 @@ def _cli(R, only):
                     _judge(R, inner, out, bins, pix, k, ["count"], None)
                 finally:
                     scratch.rm(out)
+        # --field (columns, aggregates, dtypes) and --append into the SOURCE file (the one case in which the CLI passes the lock)
+        for fi, (fields, cols, agg) in enumerate(((["count:agg=max"], ["count"], {"count": "max"}),
+                                                  (["count", "score:dtype=float64,agg=min"], ["count", "score"], {"score": "min"}),
+                                                  (["score:agg=max"], ["score"], {"score": "max"}))):
+            for nproc in (1, 2):
+                inner = {"mat": name, "k": 2, "nproc": nproc, "fields": fields, "append_into_source": fi == 1}
+                if only is not None and only != inner:
+                    continue
+                R.ev(1, 1)
+                R.add("transitions")
+                R.cls("cli:--field")
+                out = scratch.fresh()
+                try:
+                    src = uri
+                    dst = out
+                    if fi == 1:
+                        import shutil
+                        shutil.copy(uri.split("::")[0], out)
+                        src, dst = out, out + "::/coarse"
+                        R.cls("cli:--append-into-source")
+                    args = ["coarsen", "-k", 2, "-c", 3, "-p", nproc, "-o", dst] + (["--append"] if fi == 1 else [])
+                    for f in fields:
+                        args += ["--field", f]
+                    code, so, exc = build.cli(args + [src])
+                    if code != 0 or exc is not None:
+                        R.mismatch("coarsen-cli-fails", inner, f"code={code} exc={exc!r}")
+                        continue
+                    _judge(R, inner, dst, bins, pix, 2, cols, agg)
+                    if fi == 1:
+                        # the source collection at the root of the same file is still what it was
+                        got0, rd0 = fx.read(out)
+                        if fx.same_values(got0, pix, ["count", "score"]):
+                            R.mismatch("source-collection-changed-by-append", inner, "")
+                finally:
+                    scratch.rm(out)
 
 
 def seams():
